@@ -22,10 +22,13 @@ PROPS = ["C01", "C02", "C03", "C04", "C07", "C08", "C09", "C10", "C11", "C12",
 
 
 class Ctx:
-    def __init__(self, repo, tier):
+    def __init__(self, repo, tier, deep=False):
         self.repo, self.tier = repo, tier
-        self.model = Model(repo)
+        from . import interp
+        interp.REPO = repo
+        self.model = Model(repo, deep=deep)
         self.thorough = tier == "thorough"
+        self.deep = deep
 
 
 def run_property(pid, tier, seed=0, only=None, quiet=False):
@@ -36,6 +39,19 @@ def run_property(pid, tier, seed=0, only=None, quiet=False):
         ctx = Ctx(repo, tier)
         mod = importlib.import_module(f"sa.rules.{pid.lower()}")
         mod.run(chk, ctx)
+        chk.taint(ctx.model.tainted)
+        if tier == "thorough" and ctx.model.used_generators():
+            # second cover of the state space: one generator run per boundary cell of the configuration
+            # (every finite-domain attribute split, integer attributes split at lowest / lowest+1 / rest).
+            # Each cover is complete by itself, so an obligation is PROVED if either cover proves it and
+            # REFUTED if either refutes it (a refutation inside a feasible cell is definite).
+            chk2 = Check(pid, tier, seed, quiet=True)
+            chk2.repo = repo
+            ctx2 = Ctx(repo, tier, deep=True)
+            mod.run(chk2, ctx2)
+            chk2.taint(ctx2.model.tainted)
+            chk2.apply_taint()
+            chk.combine(chk2, ctx2.model.cell_count())
     except AnchorMissing as e:
         chk.error(f"anchor vanished: {e}")
     except Unsupported as e:
